@@ -267,6 +267,31 @@ def v_port_value():
     return _shared["port_value"], {}
 
 
+def _axi_classes():
+    """an AXI4-Lite register-map entity and a class DERIVED from it that adds a register: the address map generated for the base
+    class must not be reused for the derived class (whichever is compiled first)"""
+    if "axi" not in _shared:
+        from cohdl.std.axi import axi4_light as axi
+        from cohdl.std.reg import reg32
+
+        class AxiBase(axi.addr_map_entity(addr_width=8)):
+            r0: reg32.MemWord[0]
+
+        class AxiDerived(AxiBase):
+            r1: reg32.MemWord[4]
+
+        _shared["axi"] = (AxiBase, AxiDerived)
+    return _shared["axi"]
+
+
+def v_axi_base():
+    return _axi_classes()[0], {}
+
+
+def v_axi_derived():
+    return _axi_classes()[1], {}
+
+
 def v_context_probe():
     """asks for the sequential context it is compiled in: none, whatever was compiled (or rejected) before"""
     class ContextProbe(Entity):
@@ -419,7 +444,7 @@ def r_drivers():
     return BadDrv, {}
 
 
-VALID = ["v_comb", "v_coroutine", "v_prefix", "v_named", "v_reserved", "v_hier", "v_open_entity", "v_commented", "v_base_port", "v_derived_inst", "v_aliased_signal", "v_global_one", "v_global_two", "v_attrs_dict", "v_context_probe", "v_port_value"]
+VALID = ["v_comb", "v_coroutine", "v_prefix", "v_named", "v_reserved", "v_hier", "v_open_entity", "v_commented", "v_base_port", "v_derived_inst", "v_aliased_signal", "v_global_one", "v_global_two", "v_attrs_dict", "v_context_probe", "v_port_value", "v_axi_base", "v_axi_derived"]
 REJECTED = ["r_statemachine", "r_context", "r_prefix", "r_architecture", "r_drivers", "r_seqctx"]
 _cache = {}
 
